@@ -16,12 +16,17 @@ Import ListNotations.
 Local Open Scope Z_scope.
 
 Definition u32 (x : Z) : Z := x mod M32.
+Record found := mkF { f_ip : Z; f_ml : Z; f_dist : Z }.
 
 Section Mid.
   Variable vrd : Z -> Z.
   Variable lim : outdir.
   Variable prefixIdx dictIdx : Z.      (* ctx->dictLimit, ctx->lowLimit *)
   Variable s0 srcSize maxOut : Z.      (* index of src, *srcSizePtr, maxOutputSize *)
+  (* dict == usingDictCtxHc: the search into the attached dictionary context at position ip, i.e. the result of
+     `(ipIndex - gDictEndIndex < LZ4_DISTANCE_MAX - 8) ? searchIntoDict(...) : none`, kept when dMatch.len >= MINMATCH
+     (lz4hc.c:638-651).  noDictCtx: the constant function None.  Concrete searches: Model.HcMidDict. *)
+  Variable dsrch : Z -> option found.
 
   Definition mi_iend := s0 + srcSize.
   Definition mi_mflimit := mi_iend - MFLIMIT.
@@ -44,8 +49,6 @@ Section Mid.
   Definition ext_count (ip pos : Z) : Z :=
     let safeLen := Z.min (u32 (prefixIdx - pos)) (mi_matchlimit - ip) in
     count vrd ip pos (ip + safeLen).
-
-  Record found := mkF { f_ip : Z; f_ml : Z; f_dist : Z }.
 
   (* the two searches of one main-loop iteration: returns the match (if any) and the updated tables *)
   Definition search (ip : Z) (h4 h8 : mem) : option found * mem * mem :=
@@ -187,7 +190,15 @@ Section Mid.
       if ip <=? mi_mflimit then
         match search ip (m_h4 s) (m_h8 s) with
         | (None, h4, h8) =>
-          main_loop f (mkM (ip + 1 + (ip - m_anchor s) / 512) (m_anchor s) (m_op s) (m_rout s) h4 h8 (m_hw s)) oend
+          match dsrch ip with
+          | Some fd =>
+            match encode_step s (u32 ip) fd h4 h8 oend with
+            | inl s' => main_loop f s' oend
+            | inr r => r
+            end
+          | None =>
+            main_loop f (mkM (ip + 1 + (ip - m_anchor s) / 512) (m_anchor s) (m_op s) (m_rout s) h4 h8 (m_hw s)) oend
+          end
         | (Some fd, h4, h8) =>
           match encode_step s (u32 ip) fd h4 h8 oend with
           | inl s' => main_loop f s' oend
